@@ -1,109 +1,129 @@
 """C17: regenerate `_slope` (sktime/utils/slope_and_trend.py) as a Gallina function over list Q.
 
-Fail closed: every statement of the function must be one of the shapes below, compared through
-`ast.unparse` (formatting-insensitive, token-exact); the arithmetic (the time index offset, the mean
-of x, the returned expression) is translated by a small typed expression translator (V = vector along
-`axis`, S = scalar).  Anything else raises Unsupported -> the harness reports a broken tie.
+Fail closed, by SYMBOLIC EXECUTION (translator/symexec_c19.py): the function is executed on a
+symbolic series `y` and axis; local names are an environment (renaming changes nothing); the VALUE
+it returns is translated by a small typed term translator (V = vector along `axis`, S = scalar).
+What is checked on the way: a 1-D input only becomes a column (`reshape`, no arithmetic); the time
+index is `np.arange(y.shape[axis])` reshaped with a shape of ones whose entry `axis` is turned into
+-1 (so that it broadcasts ALONG `axis`); means of vectors are taken along `axis` (or over the whole
+time index).  Anything else raises Unsupported -> the harness reports a broken tie.
 
 The generated C17/Gen.v defines `gen_slope : list Q -> Q` (one series; numpy applies the same
-expression to every row along `axis`).  C17/Bridge.v proves gen_slope == Model.code_slope for all
+expression to every series along `axis`).  C17/Bridge.v proves gen_slope == Model.code_slope for all
 lists, Proofs.v proves code_slope == the OLS closed form for length >= 2.
 """
 import ast
 import os
 
+from . import symexec_c19
+from .pyz import Unsupported  # noqa: F401
+from .symexec_c19 import C, Ctx, Exec, _fail, _params, collapse, fn_of, show
 
-class Unsupported(Exception):
-    pass
-
-
-SHAPE_PRELUDE = [
-    "if y.ndim == 1:\n    y = y.reshape(-1, 1)",       # 1-D input becomes a column (no arithmetic)
-    "shape = np.ones(y.ndim, dtype=np.int)",            # broadcasting shape for the time index
-    "shape[axis] *= -1",
-]
-ARANGE = "np.arange(y.shape[axis]).reshape(shape)"     # 0 .. n-1 along `axis`
-
-
-def _expr(e, env):
-    """-> (coq text, 'V' | 'S')"""
-    if ast.unparse(e) == ARANGE:
-        return "(arange (length ys))", "V"
-    if isinstance(e, ast.Name):
-        if e.id not in env:
-            raise Unsupported("unknown name %s" % e.id)
-        return env[e.id]
-    if isinstance(e, ast.Constant) and isinstance(e.value, int) and not isinstance(e.value, bool):
-        return "(inject_Z (%d))" % e.value, "S"
-    if isinstance(e, ast.BinOp):
-        if isinstance(e.op, ast.Pow):
-            a, ta = _expr(e.left, env)
-            if ta == "S" and isinstance(e.right, ast.Constant) and e.right.value == 2:
-                return "(%s * %s)" % (a, a), "S"
-            raise Unsupported("power " + ast.unparse(e))
-        ops = {ast.Add: "+", ast.Sub: "-", ast.Mult: "*", ast.Div: "/"}
-        if type(e.op) not in ops:
-            raise Unsupported("operator " + ast.unparse(e))
-        op = ops[type(e.op)]
-        a, ta = _expr(e.left, env)
-        b, tb = _expr(e.right, env)
-        if ta == "S" and tb == "S":
-            return "(%s %s %s)" % (a, op, b), "S"
-        if ta == "V" and tb == "V" and op == "*":
-            return "(vmul %s %s)" % (a, b), "V"
-        if ta == "V" and tb == "S" and op == "+":
-            return "(vaddc %s %s)" % (a, b), "V"
-        raise Unsupported("broadcast shape of " + ast.unparse(e))
-    if isinstance(e, ast.Call):
-        f = ast.unparse(e.func)
-        if f == "np.mean" and len(e.args) == 1 and [ast.unparse(k.value) for k in e.keywords] == [
-                "axis"] and e.keywords[0].arg == "axis":
-            a, ta = _expr(e.args[0], env)
-            if ta == "V":
-                return "(qmean %s)" % a, "S"
-        if isinstance(e.func, ast.Attribute) and e.func.attr == "mean" and not e.args and not e.keywords:
-            a, ta = _expr(e.func.value, env)
-            if ta == "V":
-                return "(qmean %s)" % a, "S"
-        raise Unsupported("call " + ast.unparse(e))
-    raise Unsupported("expression " + ast.unparse(e))
+Y, AXIS = ("param", "y"), ("param", "axis")
 
 
 def translate(repo):
+    symexec_c19.TAG[0] = "slope_c17"
     path = os.path.join(repo, "sktime", "utils", "slope_and_trend.py")
     with open(path) as f:
         mod = ast.parse(f.read())
+    reshapes = []
+
+    def hook(t):
+        # reshape changes the shape, not the values: remember what was reshaped how
+        if t[0] == "call" and t[1][0] == "attr" and t[1][2] == "reshape":
+            reshapes.append((t[1][1], t[2], t[3]))
+            return t[1][1]
+        return t
+    ctx = Ctx(mod, None, primitives=set(), hook=hook)
     fns = [n for n in mod.body if isinstance(n, ast.FunctionDef) and n.name == "_slope"]
     if len(fns) != 1:
-        raise Unsupported("_slope not found")
+        _fail("_slope not found")
     fn = fns[0]
-    if [a.arg for a in fn.args.args] != ["y", "axis"] or fn.args.vararg or fn.args.kwarg:
-        raise Unsupported("signature of _slope changed")
-    body = list(fn.body)
-    if body and isinstance(body[0], ast.Expr) and isinstance(body[0].value, ast.Constant) and \
-            isinstance(body[0].value.value, str):
-        body = body[1:]
-    pre = [ast.unparse(s) for s in body[:len(SHAPE_PRELUDE)]]
-    if pre != SHAPE_PRELUDE:
-        raise Unsupported("shape prelude of _slope changed: %r" % (pre,))
-    rest = body[len(SHAPE_PRELUDE):]
-    env = {"y": ("ys", "V")}
-    lets = []
-    for s in rest[:-1]:
-        if not (isinstance(s, ast.Assign) and len(s.targets) == 1 and isinstance(s.targets[0], ast.Name)):
-            raise Unsupported("statement " + ast.unparse(s))
-        name = s.targets[0].id
-        if name in ("y", "axis") or name in env:
-            raise Unsupported("re-assignment of " + name)
-        txt, ty = _expr(s.value, env)
-        cn = "v_" + name
-        lets.append("let %s := %s in" % (cn, txt))
-        env[name] = (cn, ty)
-    if not rest or not isinstance(rest[-1], ast.Return) or rest[-1].value is None:
-        raise Unsupported("_slope does not end in a return")
-    txt, ty = _expr(rest[-1].value, env)
+    names, _d = _params(fn, False)
+    if names != ["y", "axis"]:
+        _fail("signature of _slope changed", fn)
+    node = collapse(Exec(ctx).run_function(fn, {"y": Y, "axis": AXIS}))
+    effs = []
+    while node[0] == "eff":
+        effs.append(node[1])
+        node = node[2]
+    if node[0] != "ret":
+        _fail("_slope must return one value on every path (found %s)" % node[0])
+    value = node[1]
+    n_time = ("sub", ("attr", Y, "shape"), AXIS)
+    arange = ("call", ("attr", ("global", "np"), "arange"), (n_time,), ())
+    # the reshapes: y -> a column (any), the time index -> ones with -1 at `axis`
+    ones = None
+    for what, args, kws in reshapes:
+        if what == Y:
+            if list(args) != [C(-1), C(1)] or kws:
+                _fail("_slope: y may only be reshaped into a column", what)
+        elif what == arange:
+            if len(args) != 1 or kws:
+                _fail("_slope: reshape of the time index", what)
+            ones = args[0]
+        else:
+            _fail("_slope: unexpected reshape of %s" % show(what))
+    if ones is None or not (fn_of(ones) == "np.ones" and ones[2] and ones[2][0] == ("attr", Y, "ndim")):
+        _fail("_slope: the time index must be reshaped with a shape of y.ndim ones", ones)
+    flips = [e for e in effs if e[0] == "augitem"]
+    if flips != [("augitem", ones, AXIS, "Mult", C(-1))]:
+        _fail("_slope: the shape of the time index must get -1 at `axis` (and nothing else)")
+    for e in effs:
+        if e[0] == "call" and (fn_of(e) or "").split(".")[0] in ("np",) or e[0] == "augitem":
+            continue
+        if e[0] == "call" and e[1][0] == "attr" and e[1][2] in ("mean", "reshape"):
+            continue
+        _fail("_slope: unexpected operation", e)
+
+    def tr(t):
+        """-> (coq text, 'V' | 'S')"""
+        if t == Y:
+            return "ys", "V"
+        if t == arange:
+            return "(arange (length ys))", "V"
+        if t[0] == "const" and isinstance(t[1], int) and not isinstance(t[1], bool):
+            return "(inject_Z (%d))" % t[1], "S"
+        if t[0] in ("add", "binop"):
+            if t[0] == "add":
+                op, a, b = "+", t[1], t[2]
+            else:
+                if t[1] == "Pow":
+                    x, tx = tr(t[2])
+                    if tx == "S" and t[3] == C(2):
+                        return "(%s * %s)" % (x, x), "S"
+                    _fail("_slope: power", t)
+                ops = {"Sub": "-", "Mult": "*", "Div": "/"}
+                if t[1] not in ops:
+                    _fail("_slope: operator", t)
+                op, a, b = ops[t[1]], t[2], t[3]
+            x, tx = tr(a)
+            y2, ty = tr(b)
+            if tx == "S" and ty == "S":
+                return "(%s %s %s)" % (x, op, y2), "S"
+            if tx == "V" and ty == "V" and op == "*":
+                return "(vmul %s %s)" % (x, y2), "V"
+            if tx == "V" and ty == "S" and op == "+":
+                return "(vaddc %s %s)" % (x, y2), "V"
+            if tx == "S" and ty == "V" and op == "+":
+                return "(vaddc %s %s)" % (y2, x), "V"
+            _fail("_slope: broadcast shape", t)
+        if t[0] == "call":
+            if fn_of(t) == "np.mean" and len(t[2]) == 1 and t[3] == (("axis", AXIS),):
+                x, tx = tr(t[2][0])
+                if tx == "V":
+                    return "(qmean %s)" % x, "S"
+            if t[1][0] == "attr" and t[1][2] == "mean" and not t[2] and not t[3]:
+                x, tx = tr(t[1][1])
+                if tx == "V" and not _mentions_series(t[1][1], arange):
+                    return "(qmean %s)" % x, "S"        # mean over the whole time index
+            _fail("_slope: call", t)
+        _fail("_slope: expression", t)
+
+    txt, ty = tr(value)
     if ty != "S":
-        raise Unsupported("returned expression is not one value per series")
+        _fail("_slope: the returned expression is not one value per series")
     gen = ["(* GENERATED by translator/slope_c17.py from sktime/utils/slope_and_trend.py::_slope."
            " Do not edit. *)",
            "From Coq Require Import QArith List ZArith.",
@@ -111,10 +131,18 @@ def translate(repo):
            "Import ListNotations.",
            "Open Scope Q_scope.",
            "",
-           "Definition gen_slope (ys : list Q) : Q :="]
-    gen += ["  " + ln for ln in lets]
-    gen += ["  " + txt + ".", ""]
+           "Definition gen_slope (ys : list Q) : Q :=",
+           "  " + txt + ".", ""]
     return {"C17/Gen.v": "\n".join(gen)}
+
+
+def _mentions_series(t, arange):
+    """does the term depend on the series' VALUES (the length of the time index does not count)"""
+    if t == arange:
+        return False
+    if t == Y:
+        return True
+    return isinstance(t, tuple) and any(_mentions_series(x, arange) for x in t)
 
 
 if __name__ == "__main__":
